@@ -59,6 +59,19 @@ def run(tier, seed):
         ('compile custom-x', lambda: ir(sv.compile(':--t', custom={':--t': ':--h.t', ':--h': 'h1'}))),
         ('compile custom-y', lambda: ir(sv.compile(':--t', custom={':--t': ':--h.t', ':--h': 'h2, h3'}))),
     ]
+    # compiling something invalid: every thread gets the error itself, nobody a half-made or absent result
+
+    def invalid(pat):
+        def f():
+            try:
+                r = sv.compile(pat)
+                return 'returned ' + type(r).__name__
+            except sv.SelectorSyntaxError:
+                return 'SelectorSyntaxError'
+        return f
+    OPS.append(('compile invalid-1', invalid('div > > p[')))
+    OPS.append(('compile invalid-2', invalid('div > > p[')))
+    OPS.append(('compile invalid-3', invalid(':nth-child(2n+ ) , :is(a, b) x |')))
     # an operation that pushes many names nobody has seen before through every shared helper: whatever bounded memo
     # a helper keeps is driven over its bound while the other thread is suspended inside that helper
     fresh_counter = [0]
@@ -79,7 +92,8 @@ def run(tier, seed):
     pairs = [(a, b) for a in OPS for b in OPS]
     if tier == 'quick':
         pairs = [(a, b) for a, b in pairs if a[0].startswith('compile') or a[0].startswith('match')]
-        forced = [(a, b) for a, b in pairs if a is not b and (('ns-' in a[0] and 'ns-' in b[0]) or ('custom-' in a[0] and 'custom-' in b[0]) or ('nested-' in a[0] and 'nested-' in b[0]))]
+        forced = [(a, b) for a, b in pairs if a is not b and (('ns-' in a[0] and 'ns-' in b[0]) or ('custom-' in a[0] and 'custom-' in b[0]) or ('nested-' in a[0] and 'nested-' in b[0])
+                                                               or ('invalid-' in a[0] and 'invalid-' in b[0]))]
         pairs = rnd.sample([pq for pq in pairs if pq[1][0] != 'flood of new names' and pq[0][0] != 'flood of new names'], 30) + \
             rnd.sample(forced, min(14, len(forced)))
         flood = next(o for o in OPS if o[0] == 'flood of new names')
@@ -96,9 +110,14 @@ def run(tier, seed):
             ks = list(range(1, n_lines + 1))          # every preemption point of A
             if tier == 'quick' and len(ks) > 120:
                 ks = sorted(rnd.sample(ks, 120))
+        n_blocked = 0
         for k in ks:
+            if n_blocked >= 2:
+                ck.notes['pairs_cut_short_because_B_waits_for_A'] = ck.notes.get('pairs_cut_short_because_B_waits_for_A', 0) + 1
+                break
             sv.purge()
             ra, rb, reached, _ = sched.run_pair(opa, opb, k, pkg)
+            n_blocked += 1 if sched.LAST.get('blocked') else 0
             total += 1
             ck.count(('pair', na.split()[0], nb.split()[0], reached))
             for who, name, r in (('A', na, ra), ('B', nb, rb)):
